@@ -45,7 +45,23 @@ Definition handler_step (s : sess) (j : nat) (veto : bool) (wr : wres) : option 
           else None
       | K4 => Some (put_ctx s j h)
       | KDone => None
+      | K1w i => (* <-callCmd.Done(): the user handler goes on once the call has completed *)
+          match nth_error (calls s) i with
+          | Some c => if c_dones c =? 0 then None else Some (setp (set_kpc h K1))
+          | None => Some (setp (set_kpc h K1))
+          end
       end
+  end.
+
+(* the user handler (running, K1) starts to wait for a call of this session - one it has
+   just issued itself, or any other *)
+Definition hwait_step (s : sess) (j i : nat) : option sess :=
+  match nth_error (hctxs s) j with
+  | Some h => match k_pc h with
+              | K1 => Some (set_hctxs s (upd (hctxs s) j (set_kpc h (K1w i))))
+              | _ => None
+              end
+  | None => None
   end.
 
 (* ---- events of one session ---- *)
@@ -62,7 +78,9 @@ Inductive sevent :=
 | EVisit (i : nat)
 | ECaller (i : nat) (veto : bool) (wr : wres)
 | EReply (i : nat)
-| EHandler (j : nat) (veto : bool) (wr : wres).
+| EHandler (j : nat) (veto : bool) (wr : wres)
+(* a choice of the user's handler code *)
+| EHWait (j : nat) (i : nat).                 (* handler j starts waiting for call i to complete *)
 
 Definition noeff (o : option sess) : option (sess * effect) :=
   match o with Some s => Some (s, FxNone) | None => None end.
@@ -80,6 +98,7 @@ Definition sstep_cfg (g : cfg) (s : sess) (e : sevent) : option (sess * effect) 
   | ECaller i v w => noeff (caller_step s i v w)
   | EReply i => noeff (reply_step s i)
   | EHandler j v w => noeff (handler_step s j v w)
+  | EHWait j i => noeff (hwait_step s j i)
   end.
 
 Definition sstep := sstep_cfg fixed.
@@ -89,7 +108,7 @@ Definition sstep := sstep_cfg fixed.
    socket is bound to produce. *)
 Definition internal (s : sess) (e : sevent) : bool :=
   match e with
-  | EConnLost | EClose | EIssue | EPush => false
+  | EConnLost | EClose | EIssue | EPush | EHWait _ _ => false
   | EFrame FrErr => negb (conn s) || negb (sock s)
   | EFrame _ => false
   | _ => true
